@@ -265,7 +265,15 @@ func runText(c *lib.Ctx, sc *tscen) {
 		okB := map[string]bool{canonGlobals(alone.After): true, canonGlobals(ab["b"].Final): true, canonGlobals(ba["b"].Final): true, canonGlobals(ba["b"].After): true}
 		okA := map[string]bool{canonGlobals(aloneA.After): true, canonGlobals(ab["a"].Final): true, canonGlobals(ab["a"].After): true, canonGlobals(ba["a"].Final): true}
 		if !okB[canonGlobals(cc["b"].Final)] || !okA[canonGlobals(cc["a"].Final)] {
-			c.Fail("concurrent-parse-not-serialisable", sc.stream+" stream: parsed concurrently, a package ends with values it has in neither sequential order",
+			// a package that writes through a KNOWN leak races with the other one: the outcome is explained by that leak
+			cls := "concurrent-parse-not-serialisable"
+			for _, a := range append(append([]tact{}, sc.A...), sc.B...) {
+				if a.tag != "" {
+					cls = a.tag
+					break
+				}
+			}
+			c.Fail(cls, sc.stream+" stream: parsed concurrently, a package ends with values it has in neither sequential order",
 				map[string]any{"files": srcs, "a": cc["a"].Final, "b": cc["b"].Final})
 		}
 	}
@@ -568,9 +576,10 @@ func privateAction(r *lib.Rng, pkg string, k, which int) tact {
 	case 21:
 		return ok("private-plus-empty", fmt.Sprintf("%s = _PL + []\n", v), fmt.Sprintf("%s[0] = %d\n", v, w), v)
 	case 22:
-		return ok("private-rebind-aug", "", fmt.Sprintf("_PL += [%d]\n", w), "_PL")
+		// (rebinding the package's own name: later actions and the observer of the SAME package legitimately see it: no F oracle)
+		return ok("private-rebind-aug", "", fmt.Sprintf("_PL += [%d]\n", w), "")
 	case 23:
-		return ok("private-rebind", "", fmt.Sprintf("_PD = {\"opt\": %d}\n", w), "_PD "+pkg+"_o_keys")
+		return ok("private-rebind", "", fmt.Sprintf("_PD = {\"opt\": %d}\n", w), "")
 	case 24:
 		return ok("private-comprehension", fmt.Sprintf("%s = [x for x in _PL]\n", v), fmt.Sprintf("%s[0] = %d\n", v, w), v)
 	default:
